@@ -176,6 +176,26 @@ def streams(rnd, tier):
             R.prefix_pdu(1, (fam, addr, w, w, 65002), 1) + R.prefix_pdu(1, (fam, addr, w, w, 65000), 1) + R.eod(1, SESS, SERIAL + 1)
         out.append(("bulk nested chain /0../%d of IPv%s, then operations on the longest" % (w, fam),
                     [("data", first), ("data", R.serial_notify(1, SESS, SERIAL + 1)), ("data", second)]))
+    # many records of ONE prefix (one trie node's record array: it grows and shrinks with every announcement / withdrawal), then
+    # deltas that withdraw some and announce others - well-formed PDUs only; counts around the powers of two
+    for fam, w in (("4", 32), ("6", 128)):
+        ln = 8 if fam == "4" else 32
+        addr = "".join(rnd.choice("01") for _ in range(ln)) + "0" * (w - ln)
+        for n0 in (3, 4, 5, 8, 9, 17):
+            recs = [(fam, addr, ln, ln + (i % 3), 64500 + i) for i in range(n0 + 6)]
+            first = R.cache_response(1, SESS) + b"".join(R.prefix_pdu(1, r, 1) for r in recs[:n0]) + R.eod(1, SESS, SERIAL)
+            ev = [("data", first)]
+            have, nxt, sn = list(recs[:n0]), n0, SERIAL
+            for step in range(4):
+                wd = [have.pop(rnd.randrange(len(have))) for _ in range(min(len(have) - 1, 1 + step % 2))]
+                an = recs[nxt:nxt + 1 + (step + 1) % 2]
+                nxt += len(an)
+                have += an
+                sn += 1
+                ev += [("data", R.serial_notify(1, SESS, sn)),
+                       ("data", R.cache_response(1, SESS) + b"".join(R.prefix_pdu(1, r, 0) for r in wd) +
+                        b"".join(R.prefix_pdu(1, r, 1) for r in an) + R.eod(1, SESS, sn))]
+            out.append(("%d records on one IPv%s prefix, then four deltas withdrawing and announcing on it" % (n0, fam), ev))
     k = used = 0
     for ver in (1, 0):
         for desc, p in hostile_pdus(rnd, ver):
